@@ -390,11 +390,21 @@ def mk_track(rt):
     return t
 
 
+_BYSTANDERS = []
+
+
 def mk_composition(rc):
+    """the composition of the recipe -- made in a program that holds other compositions too: one is created (and given
+    a track) after this one is complete and stays alive while it is written; a composition is not changed by that"""
     from mingus.containers.composition import Composition
+    from mingus.containers.track import Track
     c = Composition()
     for rt in rc:
         c.add_track(mk_track(rt))
+    other = Composition()
+    other.add_track(Track())
+    _BYSTANDERS.append(other)
+    del _BYSTANDERS[:-3]
     return c
 
 
